@@ -190,6 +190,29 @@ theorem nodesOK_insert (C : Crypto) (hC : HashWF C) (bs : Array Bytes) (batch : 
         exact hmiss _ ((hnodes _).mpr this) rfl
     rw [node?_congr t t' f _ (by rw [ht']; exact insertAll_miss _ _ _ hmiss), hN d o hold, nodeAt_append C bs batch d o hold]
 
+/-- the general form: inserting any node list that is sound and complete for the step `bs → bs'` -/
+theorem nodesOK_insert_gen (C : Crypto) (hC : HashWF C) (bs : Array Bytes) (more : List Bytes) (t t' : Tree) (f : File)
+    (nodes : List Node) (ht' : t'.unflushed = insertAll t.unflushed nodes)
+    (sound : ∀ n ∈ nodes, ∃ d o, n = nodeAt C (bs ++ more.toArray) d o ∧ (o + 1) * 2 ^ d ≤ bs.size + more.length)
+    (compl : ∀ d o, bs.size < (o + 1) * 2 ^ d → (o + 1) * 2 ^ d ≤ bs.size + more.length → nodeAt C (bs ++ more.toArray) d o ∈ nodes)
+    (hN : NodesOK C bs t f) : NodesOK C (bs ++ more.toArray) t' f := by
+  intro d o hb
+  have hb' : (o + 1) * 2 ^ d ≤ bs.size + more.length := by simpa using hb
+  by_cases hex : ∃ n ∈ nodes, n.index = Flat.index d o
+  · obtain ⟨n, hn, hni, hget⟩ := insertAll_hit _ t.unflushed _ hex
+    obtain ⟨d', o', rfl, _⟩ := sound n hn
+    obtain ⟨rfl, rfl⟩ := index_inj d' o' d o hni
+    apply node?_of_unflushed
+    · rw [ht']; exact hget
+    · exact nodeAt_not_blank C hC _ _ _
+  · have hmiss : ∀ n ∈ nodes, n.index ≠ Flat.index d o := fun n hn e => hex ⟨n, hn, e⟩
+    have hold : (o + 1) * 2 ^ d ≤ bs.size := by
+      by_cases hle : (o + 1) * 2 ^ d ≤ bs.size
+      · exact hle
+      · exfalso
+        exact hmiss _ (compl d o (by omega) hb') rfl
+    rw [node?_congr t t' f _ (by rw [ht']; exact insertAll_miss _ _ _ hmiss), hN d o hold, nodeAt_append C bs more d o hold]
+
 /-! ### `flush` keeps the lookup exact -/
 
 theorem nodeBytes_length (n : Node) (h : n.hash.length = 32) : (nodeBytes n).length = 40 := by
